@@ -57,6 +57,17 @@ Theorem C06_independent_b_complete : forall vs, independent_b vs = false ->
 Proof. exact independent_b_complete. Qed.
 Print Assumptions C06_independent_b_complete.
 
+(* consequences for the counts and marks: for an accepted ring list, rings_count is its length, every ring atom is an
+   atom of the graph with at least two (not special) neighbours and is marked in_ring *)
+Theorem C06_rings_count_agrees : forall g rs, is_cycle_basis g rs = true -> rings_count g = Ok (Z.of_nat (length rs)).
+Proof. exact rings_count_agrees. Qed.
+Print Assumptions C06_rings_count_agrees.
+
+Theorem C06_accepted_ring_atoms : forall g rs r v, is_cycle_basis g rs = true -> In r rs -> In v r ->
+  In v (keys g) /\ (2 <= length (gnbrs g v))%nat /\ atom_in_ring rs v = true.
+Proof. exact accepted_ring_atoms. Qed.
+Print Assumptions C06_accepted_ring_atoms.
+
 (* ---- (S) the reference construction mcb_ref (Horton candidates + greedy elimination) ---- *)
 
 (* for every well-formed graph: each ring of mcb_ref g is a simple cycle of g, the rings are linearly independent
